@@ -33,6 +33,10 @@ type Obligation struct {
 	// were stored to), which the compiled program cannot observe: a counterexample the native run does not
 	// reproduce is confirmed by deterministic re-execution of its decision vector in the engine.
 	EngineReplay bool `json:"engine_replay"`
+	// ReportOnly narrows what this obligation reports to the clauses of ITS property when it re-uses a harness written
+	// for another one: "panic:producer" / "panic:consumer" (a panic below arrow_record.Producer / Consumer),
+	// "panic" (any), "assert:<suffix>". Everything else the harness asserts is left to the property it belongs to.
+	ReportOnly []string `json:"report_only"`
 	Models    []string                  `json:"models"`
 	Sched     bool                      `json:"sched"`
 	MapOrder  bool                      `json:"maporder"`
@@ -123,6 +127,45 @@ func foreignAssert(id, prop string) bool {
 	for _, pre := range []string{"C15."} {
 		if strings.HasPrefix(id, pre) && !strings.HasPrefix(pre, prop) {
 			return true
+		}
+	}
+	return false
+}
+
+func stackHas(v sym.Violation, sub string) bool {
+	for _, f := range v.Stack {
+		if strings.Contains(f, sub) {
+			return true
+		}
+	}
+	return strings.Contains(v.Site, sub)
+}
+
+func reportedHere(only []string, v sym.Violation) bool {
+	if len(only) == 0 {
+		return true
+	}
+	if v.Kind != "assert" && v.Kind != "panic" {
+		return true
+	}
+	for _, pat := range only {
+		switch {
+		case pat == "panic":
+			if v.Kind == "panic" {
+				return true
+			}
+		case pat == "panic:producer":
+			if v.Kind == "panic" && (stackHas(v, "arrow_record.Producer)") || !stackHas(v, "arrow_record.Consumer)")) {
+				return true
+			}
+		case pat == "panic:consumer":
+			if v.Kind == "panic" && (stackHas(v, "arrow_record.Consumer)") || !stackHas(v, "arrow_record.Producer)")) {
+				return true
+			}
+		case strings.HasPrefix(pat, "assert:"):
+			if v.Kind == "assert" && strings.HasSuffix(v.AssertID, pat[len("assert:"):]) {
+				return true
+			}
 		}
 	}
 	return false
@@ -406,6 +449,9 @@ func cmdCheck(args []string) int {
 				keep := ex.Viol[:0]
 				for _, v := range ex.Viol {
 					if v.Kind == "assert" && foreignAssert(v.AssertID, *property) {
+						continue
+					}
+					if !reportedHere(ob.ReportOnly, v) {
 						continue
 					}
 					keep = append(keep, v)
